@@ -146,7 +146,7 @@ JOBS.update({
         assumptions=["threads interleave at call granularity (a race inside one call is out of reach of a serialising scheduler)",
                      "38 sampler kinds (every sampling function of cmb_random.h except the hardware seed) with fixed admissible parameters; seeds 0, 1, 2^64-1, the dummy seed and random ones"]),
     "C19": dict(level="exploration",
-        rule="seed -> cimba_run_experiment called for real with wrapped pthread_create/join/cpu-count: 1-9 worker threads parked and released by the baton scheduler at yield points inside the trial function, 1-48 trials of ten content kinds (a second generator: 64-400 short trials for 1-3 workers, one in forty of which ends its worker thread with cmb_logger_error), element sizes 9-200 bytes, one common trial function or (a quarter of the runs) your_trial_func == NULL with the function stored as the first member of every trial struct; exactly-once ledger and byte comparison with each trial run alone in a fresh thread and with a one-after-another run; "
+        rule="seed -> cimba_run_experiment called for real with wrapped pthread_create/join/cpu-count: 1-9 worker threads parked and released by the baton scheduler at yield points inside the trial function, 1-48 trials of eleven content kinds (one of them starts a process that the main thread created and initialised before the experiment) (a second generator: 64-400 short trials for 1-3 workers, one in forty of which ends its worker thread with cmb_logger_error), element sizes 9-200 bytes, one common trial function or (a quarter of the runs) your_trial_func == NULL with the function stored as the first member of every trial struct; exactly-once ledger and byte comparison with each trial run alone in a fresh thread and with a one-after-another run; "
              "distinct = distinct trace hashes; non-trivial = some worker ran more than one trial and the baton changed hands",
         jobs=[J("experiment", "rel", 6000, 150000), J("experiment", "san", 1500, 30000),
               # very many short trials for one to three workers (64 to 400 trials), one in forty gives up and takes its worker thread with it
